@@ -2,3 +2,6 @@ import NLV.Model.PubSub
 import NLV.Lemmas.PubSub
 import NLV.Props.C08
 import NLV.Driver.PubSub
+import NLV.Model.Lines
+import NLV.Props.C13
+import NLV.Driver.Lines
